@@ -67,19 +67,26 @@ def run_async(scn, observers=()):
             loop.on_quiescent = on_q
         if cancel is not None and cancel.get("kind") in ("native", "scope"):
             loop.inject = dict(cancel)
+        if scn.get("record_sites"):
+            loop.record_sites = (scn["record_sites"], [])
         ts = []
         for i, c in enumerate(scn.get("callers", ())):
             name = f"c{i}"
             c = dict(c)
             if cancel is not None and cancel.get("caller") == name:
-                if cancel["kind"] == "scope":
+                if cancel["kind"] in ("scope", "deadline"):
                     c["scope"] = "scope"
-                elif cancel["kind"] == "deadline":
-                    c["scope"] = "deadline"
-                    c["deadline"] = cancel["t"]
             t = loop.create_task(wrapped(loop, api, name, c), name=name)
             loop.caller_tasks[name] = t
             ts.append(t)
+        if cancel is not None and cancel.get("kind") == "deadline":
+            # a deadline is a scope cancellation delivered at a virtual instant
+            def fire():
+                t = loop.caller_tasks.get(cancel["caller"])
+                if t is not None and not t.done() and cancel["caller"] in loop.scopes:
+                    loop._deliver(t, {"caller": cancel["caller"], "kind": "scope",
+                                      "timing": "deadline", "step": t._sim_steps})
+            loop.call_at(cancel["t"], fire)
         if ts:
             await asyncio.wait(ts)
         world.log("callers_done")
@@ -125,6 +132,8 @@ def run_async(scn, observers=()):
     res.info["spins"] = loop.spins
     res.info["task_steps"] = {n: t._sim_steps for n, t in loop.caller_tasks.items()}
     res.info["injected"] = loop.injected
+    if loop.record_sites is not None:
+        res.info["step_sites"] = loop.record_sites[1]
     res.info["opcount"] = world.opcount
     finish(res, world)
     for ob in observers:
